@@ -47,6 +47,7 @@ VARIANTS = {
     'fkf': [{}],
 }
 # filters whose configuration contains arrays: the companion is built from the same array objects
+SHARED_OBJECT = {'madgwick_imu', 'madgwick_marg', 'aqua_imu', 'aqua_marg'}     # no carried state besides the caller's quaternion
 COMPANION_CONFIG = {
     'mahony_imu': {'b0': [0.0, 0.0, 0.0]}, 'mahony_marg': {'b0': [0.0, 0.0, 0.0]},
     'ekf_imu': {'P': [[1.0 if i == j else 0.0 for j in range(4)] for i in range(4)]},
@@ -90,7 +91,7 @@ def error_history(scn, n, with_twin=False):
     key = W.chan_key(a_ref, m_ref)
     spec = {'dt': dt, 'q0': scn['q_true'], 'segments': [{'t': 'rest', 'len': n - 1}], 'g': scn['g'], 'mscale': scn['mscale'],
             'dip': dip, 'noise': {'acc': 0.0, 'mag': 0.0, 'gyr': scn['gyr_noise']}, 'noise_seed': scn['noise_seed'],
-            'gyr_floor': 1e-7, 'faults': []}
+            'gyr_floor': float(scn.get('gyr_floor', 1e-7)), 'faults': []}
     hist = W.build(spec, [(a_ref, m_ref)])
     qt = hist.truth[0]
     target = qm.qconj(qt) if kind.conj else qt
@@ -138,6 +139,14 @@ def error_history(scn, n, with_twin=False):
     # a companion instance of the same class, built by the application from the *same* configuration arrays
     # (bias, covariance, weights) but started far from the truth and stepped in between: it must not matter
     comp = None
+    g2 = a2 = m2 = None
+    if scn.get('shared_obj') and kind.name in SHARED_OBJECT:
+        # a second client of the *same* filter object (these classes carry no state besides the quaternion the caller
+        # hands back): another sensor at another true attitude, served between the calls of the judged stream
+        spec2 = dict(spec, q0=[float(x) for x in qm.qnorm(qm.qmul(np.array(scn['q_true'], dtype=float), qm.axang(scn['axis'][::-1], math.radians(float(scn['shared_obj'])))))],
+                     noise_seed=scn['noise_seed'] + 1)
+        h2 = W.build(spec2, [(a_ref, m_ref)])
+        g2, a2, m2 = h2.gyr, h2.acc[key], h2.mag[key]
     if scn.get('companion') and kind.name in COMPANION_CONFIG:
         cfg = {k: v for k, v in COMPANION_CONFIG[kind.name].items()}
         pp.update({k: v for k, v in cfg.items() if k not in pp})
@@ -151,25 +160,36 @@ def error_history(scn, n, with_twin=False):
             if kind.q0_route == 'q0':
                 pc['q0'] = [float(x) for x in qc]
             comp = [kind.make(pc, dt, dip), qc, pc]
+        elif g2 is not None:
+            comp = [inst, qm.qnorm(qm.qmul(target, qm.axang(scn['axis'][::-1], math.radians(100.0)))), pp]
     except Exception as e:      # noqa: BLE001
         return errs, err_of(q_init), f'raised:{type(e).__name__}'
     q = q_init.copy()
     errs[0] = err_of(q)
-    dtc = bool(p.get('dt_call', False))
+    dtc0 = bool(p.get('dt_call', False))
+    odd = int(scn.get('odd_dt_tick') or 0)
     for k in range(1, n):
+        # one call with an explicit, tiny period (a nearly duplicated time stamp) in a stream that otherwise relies on
+        # the period given at construction: that call is next to a no-op and must not change the later ones
+        dtc = 1e-6 if k == odd else dtc0
         if comp is not None:
+            gc, ac, mc = (g, a, m) if g2 is None else (g2, a2, m2)
             try:
-                comp[1] = K.out_to_array(kind.step(comp[0], comp[2], comp[1], g[k], a[k] if 'a' in kind.sensors else None,
-                                                   m[k] if 'm' in kind.sensors else None, dtc))
+                rc_ = kind.step(comp[0], comp[2], comp[1], gc[k], ac[k] if 'a' in kind.sensors else None,
+                                mc[k] if 'm' in kind.sensors else None, dtc0)
+                comp[1] = rc_ if (g2 is not None and isinstance(rc_, np.ndarray)) else K.out_to_array(rc_)
             except Exception:       # noqa: BLE001 - the companion's own fate is not judged here
                 comp = None
         try:
-            q = K.out_to_array(kind.step(inst, pp, q, g[k], a[k] if 'a' in kind.sensors else None,
-                                         m[k] if 'm' in kind.sensors else None, dtc))
+            r_ = kind.step(inst, pp, q, g[k], a[k] if 'a' in kind.sensors else None,
+                           m[k] if 'm' in kind.sensors else None, dtc)
+            # with a second client on the same object the application keeps the object it was handed (no copy), as a
+            # driver loop does; everywhere else a plain copy
+            q = r_ if (g2 is not None and isinstance(r_, np.ndarray)) else K.out_to_array(r_)
         except Exception as e:      # noqa: BLE001
             status = f'raised:{type(e).__name__}@{k}'
             break
-        errs[k] = err_of(q)
+        errs[k] = err_of(np.asarray(q, dtype=float).view(np.ndarray) if g2 is not None else q)
         if not math.isfinite(errs[k]):
             status = f'invalid@{k}'
             break
@@ -230,7 +250,24 @@ class Check:
                 'q_true': W.rand_unit(rnd, 4), 'g': 9.80665 if adaptive else 9.81 * rnd.uniform(0.5, 2.0),
                 'mscale': 50.0 * rnd.uniform(0.5, 2.0), 'dip': rnd.choice([-70.0, -45.0, -10.0, 20.0, 45.0, 60.0, 66.0, 75.0]),
                 'gyr_noise': 10 ** rnd.uniform(-6, -3.3), 'noise_seed': rnd.randrange(1 << 30),
-                'companion': (rnd.choice([90.0, 150.0, 170.0]) if rnd.random() < 0.35 else 0.0)}
+                'companion': (rnd.choice([90.0, 150.0, 170.0]) if rnd.random() < 0.35 else 0.0),
+                **self._extras(rnd, kind, params)}
+
+    @staticmethod
+    def _extras(rnd, kind, params):
+        """Drawn after everything else so that the older fields of a seed's scenario keep their values."""
+        out = {}
+        u = rnd.random()
+        if u < 0.15:
+            out['gyr_noise'] = 10 ** rnd.uniform(-12, -8)       # a very quiet (navigation-grade or simulated) gyroscope
+            out['gyr_floor'] = 1e-13
+        v_ = rnd.random()
+        if v_ < 0.2 and C.KINDS[kind].streaming and not params.get('dt_call'):
+            out['odd_dt_tick'] = rnd.randint(2, 6)
+        w_ = rnd.random()
+        if w_ < 0.3 and kind in SHARED_OBJECT:
+            out['shared_obj'] = rnd.choice([60.0, 120.0, 170.0])
+        return out
 
     def gen(self, seed, tier):
         rnd = random.Random(f'C05/{seed}')
